@@ -21,7 +21,7 @@ C01–C03):
 """
 from .. import cfgutil as cu
 from .. import paths
-from .C14 import canon, rcanon, _explore_facts
+from .C14 import canon, rcanon, _explore_facts, _linsum
 
 LEVEL = 'other'
 EXPLANATION = (
@@ -797,34 +797,6 @@ def r1_4(ctx):
                    'occurrence whose atom is not at the string start is missed' % (
                        f.name, sorted(sc, key=str), k))
     ctx.count('atom_transformations', n_fn)
-
-
-def _linsum(f, e, depth=0):
-    """e as a sum: ({term text: coefficient}, constant), looking through casts and through
-    locals that merely name a sub-expression"""
-    e = cu.strip_casts(f, e)
-    if e is None or depth > 12:
-        return None
-    v = cu.const_of(e)
-    if v is not None:
-        return ({}, v)
-    if e['k'] == 'ref':
-        d = cu.stable_def_of(f, e)
-        if d is not None:
-            r = _linsum(f, d, depth + 1)
-            if r is not None:
-                return r
-        return ({e['name']: 1}, 0)
-    if e['k'] == 'bin' and e['op'] in ('+', '-'):
-        x, y = _linsum(f, f.kid(e, 0), depth + 1), _linsum(f, f.kid(e, 1), depth + 1)
-        if x is None or y is None:
-            return None
-        sg = 1 if e['op'] == '+' else -1
-        t = dict(x[0])
-        for k_, c in y[0].items():
-            t[k_] = t.get(k_, 0) + sg * c
-        return ({k_: c for k_, c in t.items() if c}, x[1] + sg * y[1])
-    return ({canon(f, e): 1}, 0)
 
 
 def r1_5(ctx):
